@@ -73,6 +73,8 @@ type Ctx struct {
 	violKeys map[string]int
 	statusF  *os.File
 	cur      string
+	curA     atomic.Value // copy of cur for the watchdog goroutine
+	sub      int64        // index inside a group case (see SetSub); -1 when unused
 	beat     int64
 }
 
@@ -114,6 +116,13 @@ func (c *Ctx) Expired() bool {
 
 // Begin records the case in flight (so a process death can be attributed)
 // and counts one execution on the implementation.
+// SetSub records which execution of a group case is in flight: if the process has to be ended by the watchdog (or
+// dies), the case is attributed to "<group witness>#<i>". It also counts as a heartbeat.
+func (c *Ctx) SetSub(i int) {
+	atomic.StoreInt64(&c.sub, int64(i))
+	atomic.AddInt64(&c.beat, 1)
+}
+
 // Beat tells the watchdog that the case in flight is making progress (used by checks whose cases are groups of
 // many executions).
 func (c *Ctx) Beat() { atomic.AddInt64(&c.beat, 1) }
@@ -122,6 +131,8 @@ func (c *Ctx) Begin(witness string) {
 	c.Evals++
 	atomic.AddInt64(&c.beat, 1)
 	c.cur = witness
+	c.curA.Store(witness)
+	atomic.StoreInt64(&c.sub, -1)
 	if c.statusF != nil {
 		b := witness
 		if len(b) > 60000 {
@@ -363,6 +374,15 @@ func startWatchdog(c *Ctx) {
 			}
 			if stale >= 18 {
 				fmt.Fprintf(os.Stderr, "WATCHDOG: case in flight for >90s\n")
+				if sub := atomic.LoadInt64(&c.sub); sub >= 0 && c.statusF != nil {
+					if w, ok := c.curA.Load().(string); ok {
+						b := fmt.Sprintf("%s#%d", w, sub)
+						buf := make([]byte, 4+len(b))
+						binary.LittleEndian.PutUint32(buf, uint32(len(b)))
+						copy(buf[4:], b)
+						c.statusF.WriteAt(buf, 0)
+					}
+				}
 				os.Exit(97)
 			}
 		}
